@@ -133,7 +133,7 @@ def huge_count(np, coll):
     return _non_multiple(h, np)
 
 
-QUICK_CASES = 96        # cases of one call in a quick-tier run (stratified sample of the full list)
+QUICK_CASES = 64        # cases of one call in a quick-tier run (stratified sample of the full list)
 THOROUGH_CASES = 128     # per call in a thorough-tier run (64 for the sizes outside REQUIRED_NP)
 
 
